@@ -1,3 +1,4 @@
+import Sparrow.Proofs.PipelineEnergy
 import Sparrow.Proofs.Support
 import Sparrow.Proofs.CollectLemmas
 import Sparrow.Generated.Constants
@@ -112,5 +113,17 @@ example : demo.WF := by
   intro a ha
   simp [ExScene.arcs, arcsOf, demo] at ha
   rcases ha with rfl | rfl <;> simp [demo]
+
+/-- C02: running with a shorter histogram `S' ≤ S` gives exactly the first `S'` bins of every
+    patch histogram of the longer run (nothing is folded back). -/
+theorem runPipeline_prefix
+    (eta thr : ℝ) (room : Room ℝ) (mat : Materials ℝ) (par : RunPar ℝ) (src recv : Vec3 ℝ)
+    (S' : Nat) (hS : S' ≤ par.S) (hD : 0 < mat.nOut)
+    (r r' : RunResult ℝ)
+    (hr : runPipeline eta thr room mat par src recv = some r)
+    (hr' : runPipeline eta thr room mat { par with S := S' } src recv = some r')
+    (j d t : Nat) (hj : j < r.P) (hd : d < mat.nOut) (ht : t < S') :
+    lookup3 r'.etc j d t = lookup3 r.etc j d t :=
+  Sparrow.runPipeline_prefix eta thr room mat par src recv S' hS hD r r' hr hr' j d t hj hd ht
 
 end Sparrow.Props.C02
